@@ -25,7 +25,7 @@
 static int gs_ev_count;          /* events of any kind, log included */
 static int gs_ev_nonlog;         /* events other than log */
 static int gs_ev_first_nonlog;   /* first non-log event, -1 if none */
-static int gs_ev_ready, gs_ev_dead;
+static int gs_ev_ready, gs_ev_dead, gs_ev_fatal;
 static int gs_ev_after_dead;     /* events of any kind thrown after dead */
 static int gs_ev_last;
 static struct upipe *gs_ev_pipe; /* pipe of the last event */
@@ -40,12 +40,13 @@ static int stub_probe_throw(struct uprobe *uprobe, struct upipe *upipe, int even
     if (gs_ev_nonlog < 1000000) gs_ev_nonlog++;
     if (event == UPROBE_READY && gs_ev_ready < 1000) gs_ev_ready++;
     if (event == UPROBE_DEAD && gs_ev_dead < 1000) gs_ev_dead++;
+    if (event == UPROBE_FATAL && gs_ev_fatal < 1000) gs_ev_fatal++;
     return VS_CHOICE(probe_ret) & 1 ? UBASE_ERR_NONE : UBASE_ERR_UNHANDLED;
 }
 static struct uprobe gs_probe = { NULL, stub_probe_throw, NULL };
 static void vs_probe_reset(void)
 {
-    gs_ev_count = gs_ev_nonlog = gs_ev_ready = gs_ev_dead = gs_ev_after_dead = 0;
+    gs_ev_count = gs_ev_nonlog = gs_ev_ready = gs_ev_dead = gs_ev_after_dead = gs_ev_fatal = 0;
     gs_ev_first_nonlog = -1; gs_ev_last = -1; gs_ev_pipe = NULL;
 }
 
